@@ -382,3 +382,63 @@ func (zzNopActor) Receive(m *net.Message, from bus.Channel) error {
 }
 func (zzNopActor) Activate(a bus.Activation) error { return nil }
 func (zzNopActor) OnTerminate()                    {}
+
+// C19StaggeredCalls: two goroutines share the session's connection; the second issues its call just
+// when the first one's reply has been dispatched but the first caller has not returned yet (its
+// reply slot on the connection is free again and gets re-used): both calls succeed with their own answers.
+func C19StaggeredCalls() {
+	var streams []*zzStream
+	sym.Replace("github.com/lugu/qiloop/bus.SelectEndPoint", func(addrs []string, user, token string) (string, bus.Channel, error) {
+		st := newZZStream()
+		streams = append(streams, st)
+		return addrs[0], bus.NewChannel(net.NewEndPoint(st), bus.DefaultCap()), nil
+	})
+	s := &Session{poll: map[string]bus.Client{}}
+	info := services.ServiceInfo{Name: "a", ServiceId: 2, Endpoints: []string{"tcp://one"}}
+	c, err := s.client(info)
+	sym.Assert(err == nil && len(streams) == 1, "staggered/connected")
+	if err != nil || len(streams) != 1 {
+		return
+	}
+	st := streams[0]
+	type res struct {
+		payload []byte
+		err     error
+	}
+	outA, outB := make(chan res, 1), make(chan res, 1)
+	go func() {
+		p, err := c.Call(nil, 2, 1, 100, []byte{0xA0})
+		outA <- res{p, err}
+	}()
+	sym.Quiesce()
+	calls := st.sentMessages()
+	sym.Assert(len(calls) == 1, "staggered/first-call-sent")
+	if len(calls) != 1 {
+		return
+	}
+	h := calls[0].Header
+	h.Type = net.Reply
+	st.inject(net.NewMessage(h, []byte{0xA0}))
+	// no quiescence: the second caller starts while the first reply is being delivered
+	go func() {
+		c2, err := s.client(info)
+		if err != nil {
+			outB <- res{nil, err}
+			return
+		}
+		p, err := c2.Call(nil, 2, 1, 100, []byte{0xB0})
+		outB <- res{p, err}
+	}()
+	sym.Quiesce()
+	calls = st.sentMessages()
+	for _, f := range calls[1:] {
+		h := f.Header
+		h.Type = net.Reply
+		st.inject(net.NewMessage(h, f.Payload))
+	}
+	sym.Quiesce()
+	ra, rb := <-outA, <-outB
+	sym.Assert(ra.err == nil && len(ra.payload) == 1 && ra.payload[0] == 0xA0, "staggered/first-call")
+	sym.Assert(rb.err == nil && len(rb.payload) == 1 && rb.payload[0] == 0xB0, "staggered/second-call-disturbed-by-the-first-one-returning")
+	sym.Reach("staggered-done")
+}
